@@ -56,7 +56,7 @@ def generate(rng, tier):
             r, feats = rng.choice(DIRECTED)(rng)
             cases.append({"recipe": r, "reps": rng.choice([2, 3, 3, 4]), "features": feats})
             continue
-        r, feats = S.gen_recipe(rng, dict(case_twin=0.06))
+        r, feats = S.gen_recipe(rng, dict(case_twin=0.06, hidden_nick=0.06))
         if rng.random() < 0.25 and S.factor_into_macros(rng, r):
             feats = sorted(set(feats) | {"macro"})
         cases.append({"recipe": r, "reps": rng.choice([1, 1, 2, 3]), "features": feats})
